@@ -17,12 +17,13 @@ class Q:
              query instantiate xs := the arguments selected by `pick` (default: first len(sorts)).
     """
 
-    def __init__(self, sorts, body, trigger=None, pick=None, name=""):
+    def __init__(self, sorts, body, trigger=None, pick=None, name="", pool=None):
         self.sorts = list(sorts)
         self.body = body
         self.trigger = trigger
         self.pick = pick
         self.name = name
+        self.pool = pool          # optional filter on candidate terms when there is no trigger
 
     def skolem(self, fresh):
         xs = [fresh(f"sk_{self.name}", s) for s in self.sorts]
@@ -78,8 +79,9 @@ def instantiate(ground, schemas, rounds=3, cap=4000, per_sort_cap=80):
         for q in schemas:
             if q.trigger is None:
                 pools = []
-                for s in q.sorts:
-                    pool = [t for t in terms if t.sort() == s and not _is_value_literal(t)]
+                for vi, s in enumerate(q.sorts):
+                    flt = q.pool[vi] if isinstance(q.pool, (list, tuple)) else q.pool
+                    pool = [t for t in terms if t.sort() == s and not _is_value_literal(t) and (flt is None or flt(t))]
                     pool.sort(key=lambda t: t.get_id())
                     pools.append(pool[:per_sort_cap])
                 import itertools
